@@ -224,8 +224,8 @@ def execute(protocol_mod, cases):
 def run(ctx, only=None):
     from pyatv.core import protocol as protocol_mod
 
-    maxlen = ctx.scale(6, 8)
-    wiring_len = ctx.scale(5, 6)
+    maxlen = ctx.scale(7, 9)
+    wiring_len = ctx.scale(6, 7)
     cases = []
     for r in range(4):
         for s in scripts(maxlen):
